@@ -6,6 +6,7 @@ import (
 	"fmt"
 	"io"
 	"regexp"
+	"strconv"
 	"strings"
 	"testing"
 
@@ -152,8 +153,15 @@ func flatten(src []byte, keepComments bool) ([]node, error) {
 				if depth == 1 && t.Name.Local == "svg" {
 					if defs, ok := rootDefaults[k]; ok {
 						isDef := false
+						norm := strings.Join(strings.Fields(a.Value), " ")
 						for _, dv := range defs {
-							isDef = isDef || a.Value == dv
+							isDef = isDef || norm == dv
+						}
+						if k == "x" || k == "y" {
+							// any spelling of zero, with or without px
+							if f, err := strconv.ParseFloat(strings.TrimSuffix(norm, "px"), 64); err == nil && f == 0 {
+								isDef = true
+							}
 						}
 						if isDef {
 							continue
